@@ -85,6 +85,11 @@ CLAIMED["C14"] = ("5/C14",
    "Not covered: monotonicity/exactness of tick->price over 4.5*10^8 ticks and the inverse property (numeric enumeration). Trusted: osmomath monotone square roots (C13).",
    "go/constant evaluation + SSA guard / predicate-shape rules")
 
+CLAIMED["C11"] = ("5/C11",
+   "Static rules over x/superfluid (and lockup's BeginUnlock) decide: mint-for-delegation is paired with a supply offset of the negated amount and the same amount is sent to the intermediary account and delegated; undelegation sends back and burns exactly the instantly-undelegated coins and raises the offset by their bond-denom amount; all cache-context closures of the package use only their own context; delegate records the lock/intermediary connection and a bonded synthetic lock after validating ownership and before staking, undelegate removes both and leaves an unlocking marker; unbonding requires an unlocking synthetic lock; lockup refuses to begin unlocking a lock with synthetic locks.",
+   "Not covered: stake = risk-adjusted value within one unit per lock, supply neutrality as a number, drift over epochs. Trusted: staking keeper semantics, cache-context helper (C17).",
+   "SSA origin-term / pairing / order rules + cache-context closure containment")
+
 NOT_YET = "check not built yet in this revision (static rule set under construction; see DESIGN.md section 5)"
 
 def main():
